@@ -87,6 +87,10 @@ def check(ctx):
     R.check_writer_roles(ctx, w)
     R.check_cosort(ctx, w)
     check_cpm_denominator(ctx)
+    # the non-negativity probe scans the whole matrix: its chunked loops
+    # tile both axes exactly (shared with C05 / C16)
+    from .C05 import check_tiles
+    check_tiles(ctx, ('validation.utils',), floor=8)
 
 
 def check_negative_rejected(ctx):
